@@ -143,6 +143,14 @@ def run_shard(desc):
             rr = ref.Renderer(rnd=rnd, extra_parens=rnd.choice([0, 0, 0.15]), trailing_comma=0.1)
             text = ref.join_tokens(rr.tokens(t), rnd=rnd, compact=rnd.choice([0, 0.5, 1]))
             items.append((text, t))
+    elif kind == "long":
+        for _ in range(hi - lo):
+            if rnd.random() < 0.6:
+                n = rnd.choice([40, 64, 65, 100, 128, 129, 130, 200, 257, 300])
+                items.append((" ".join(gen.long_chain_tokens(rnd, n)), None))
+            else:
+                t = gen.deep_nest(rnd, rnd.choice([40, 64, 65, 127, 128, 129, 150]))
+                items.append((ref.Renderer(rnd=rnd).render(t), t))
     else:
         for _ in range(hi - lo):
             items.append((flat_walk(rnd), None))
@@ -214,6 +222,9 @@ def run(rep, tier):
         shards.append(("tree", i, 0, per, "release" if i % 2 else "verifdbg"))
     for i in range(nflat // per):
         shards.append(("flat", i, 0, per, "release" if i % 2 else "verifdbg"))
+    nlong = 640 if tier == "quick" else 16000
+    for i in range(16):
+        shards.append(("long", i, 0, nlong // 16, "release" if i % 2 else "verifdbg"))
     for part in common.pmap(run_shard, shards):
         rep.merge(part)
     rep.extra["exhaustive"] = True
